@@ -380,7 +380,7 @@ def valid_token(t):
 
 def gen_file_case(rng):
     d = rng.choice(DELIMS)
-    # the library wants target_dimension < min(#samples, #features) even for pass-through: td = 1, sizes >= 2
+    # the library wants target_dimension < #samples even for pass-through: --td 1 and at least 2 rows and columns
     nrows, ncols = rng.choice([2, 3, 3, 4, 5]), rng.choice([2, 3, 3, 4])
     mode = rng.choice(["clean", "clean", "clean", "garbage", "unequal", "blank", "crlf", "nonl", "nonl"])
     rows = []
@@ -598,12 +598,12 @@ class Checker:
             if rows is None:
                 if res["rc"] == 0:
                     ctx.violation(c, "rows of unequal length but the tool exits 0 (output %r)" % (res["output"] or "")[:200])
-            elif len(rows) < 2 or len(rows[0]) < 2:
-                # the library's documented range check (target_dimension in [1, min(N, D)), here --td 1) rejects
-                # a matrix with fewer than 2 samples or features: non-zero status is right, and so would be the
-                # pass-through output
-                if res["rc"] == 0 and res["output"] != write_text(rows if ti == to else transpose(rows), d):
-                    ctx.violation(c, "wrong output for a degenerate matrix: %r" % (res["output"] or "")[:200])
+            elif (len(rows[0]) if (ti and rows) else len(rows)) < 2:
+                # fewer than 2 samples: the library's documented range check (target_dimension in [1, N), here
+                # --td 1) throws and the tool must report it
+                if res["rc"] == 0:
+                    ctx.violation(c, "a matrix with fewer than 2 samples is rejected by the library "
+                                  "(target dimension range) but the tool exits 0: %r" % (res["output"] or "")[:200])
             else:
                 want = write_text(rows if ti == to else transpose(rows), d)
                 if res["rc"] != 0:
